@@ -237,6 +237,12 @@ impl AsyncWrite for UtpStreamWriteHalf {
 
         g.writer_shutdown = true;
         update_optional_waker(&mut g.writer_waker, cx);
+
+        // Let the dispatcher know, so that it sends FIN right away.
+        if let Some(w) = g.dispatcher_waker.take() {
+            drop(g);
+            w.wake();
+        }
         Poll::Pending
     }
 }
